@@ -142,8 +142,9 @@ def unitLinks (c : RawComp) : Option (Ty × List Name) :=
       | _ => none
     else none
 
-/-- Links of a target. null-out: one-or-many strings under `sources` or `source`;
-    file-out: exactly one string; mqtt-out: a non-empty array. -/
+/-- Links of a target. null-out: one-or-many strings under `sources` or its alias `source` (both:
+    duplicate field); file-out: exactly one string under `sources`; mqtt-out: a non-empty array
+    under `sources`. A key a type does not read (`source` on file-out / mqtt-out) is ignored. -/
 def targetLinks (c : RawComp) : Option (Ty × List Name) :=
   match c.ty with
   | none => none
@@ -154,16 +155,16 @@ def targetLinks (c : RawComp) : Option (Ty × List Name) :=
      | .absent, some (.s n) => some (0, [n])
      | _, _ => none)
   | some 1 =>
-    (match c.sources, c.source with
-     | .one (.s n), none => some (1, [n])
-     | _, _ => none)
+    (match c.sources with
+     | .one (.s n) => some (1, [n])
+     | _ => none)
   | some 2 =>
-    (match c.sources, c.source with
-     | .many vs, none =>
+    (match c.sources with
+     | .many vs =>
        (match names? vs with
         | some (n :: ns) => some (2, n :: ns)
         | _ => none)
-     | _, _ => none)
+     | _ => none)
   | some _ => none
 
 def deser (d : RawDoc) : Option Cfg := do
